@@ -79,7 +79,7 @@ func ZZ_C17() {
 
 	var sent []zzSentC17
 	seq := 0
-	connGen := 0       // how many A->B connection attempts have succeeded so far
+	connGen := 0        // how many A->B connection attempts have succeeded so far
 	haveWriter := false // the router of A holds an established writer for B
 	killedGen := -1
 	unreachable := 0 // expected RemoteUnreachableEvents on A
